@@ -654,6 +654,9 @@ func c04Run(w *W) {
 			m := gramParse(ss)
 			c04One(w, ss, render(ss))
 			c04One(w, ss, renderTight(ss))
+			if eof := ss[:len(ss)-1]; !hasHere(eof) {
+				c04One(w, eof, render(eof)) // the input ends with the last token, no final newline
+			}
 			if m.ok {
 				ml := multiLine(ss, m)
 				c04One(w, ml, render(ml))
@@ -666,7 +669,7 @@ func init() {
 	register(&check{
 		id:    "C04",
 		level: "model_checking",
-		rule: "every source of the C02 spaces that the parser accepts (symbol strings of the tier's alphabets/bounds; derivation sets D0–D3 and the word menu in one-line, tight and multi-line layouts, each also with multi-byte words 日本 / é); " +
+		rule: "every source of the C02 spaces that the parser accepts (symbol strings of the tier's alphabets/bounds; derivation sets D0–D3 and the word menu in one-line, tight, multi-line and end-of-input (no final newline) layouts, each also with multi-byte words 日本 / é); " +
 			"non-trivial = at least one command in the result",
 		assume: []string{"the oracle is intrinsic to (source, AST): each documented position must spell its token in the source; no expected tree",
 			"sources with alias substitution or line continuations are outside the property and not generated; Comment.End is excluded (pinned by the repository's own test)",
